@@ -386,6 +386,99 @@ impl Gen {
         }
     }
 
+    /// Connection life-cycle events with the given per-call probabilities (%): a client session ending
+    /// (either end first, the other noticing later) and a server stop/start with clients that keep
+    /// running and receiving for a while.
+    fn lifecycle(&mut self, p_conn: u32, p_restart: u32) {
+        let nclients = self.prof.clients;
+        let boost = if self.focus == Focus::Crash { 1 } else { 0 };
+        if self.en_conn && self.r.chance(p_conn >> (1 - boost)) {
+            let c = self.r.below(nclients as usize) as u8;
+            if self.connected[c as usize] {
+                let side = self.r.weighted(&[5, 3, 3]) as u8;
+                self.steps.push(Step::Disconnect { client: c, side });
+                if side != 0 {
+                    // the other end notices a bit later; traffic of the dying session may still flow
+                    for _ in 0..self.r.below(3) {
+                        match self.r.below(3) {
+                            0 => self.steps.push(Step::ServerFrame { tick: self.r.chance(50), dt_ms: 16 }),
+                            1 => self.steps.push(Step::ClientFrame { client: c, dt_ms: 16 }),
+                            _ => {
+                                if side == 2 {
+                                    self.network(c);
+                                } else {
+                                    self.uplink(c);
+                                }
+                            }
+                        }
+                    }
+                    self.steps.push(Step::Disconnect { client: c, side: 0 });
+                }
+                self.connected[c as usize] = false;
+                // at least one frame before reconnecting
+                self.steps.push(Step::ClientFrame { client: c, dt_ms: 16 });
+                if self.r.chance(60) {
+                    self.steps.push(Step::ServerFrame { tick: self.r.chance(50), dt_ms: 16 });
+                }
+                if self.r.chance(75) {
+                    self.connect(c);
+                }
+            } else {
+                self.connect(c);
+            }
+        }
+        if self.en_restart && self.r.chance(p_restart >> (1 - boost)) {
+            self.steps.push(Step::ServerStop);
+            let mut pending: Vec<u8> = (0..nclients).filter(|c| self.connected[*c as usize]).collect();
+            for c in 0..nclients {
+                self.connected[c as usize] = false;
+            }
+            let mut server_frames = 0;
+            // Clients notice at different times; until then they keep running and receiving what was in flight.
+            for _ in 0..self.r.range(1, 5) {
+                match self.r.below(5) {
+                    0 => {
+                        self.steps.push(Step::ServerFrame { tick: false, dt_ms: 16 });
+                        server_frames += 1;
+                    }
+                    1 => self.server_op(),
+                    _ => {
+                        if !pending.is_empty() {
+                            let i = self.r.below(pending.len());
+                            let c = pending[i];
+                            match self.r.below(3) {
+                                0 => self.network(c),
+                                1 => self.steps.push(Step::ClientFrame { client: c, dt_ms: 16 }),
+                                _ => {
+                                    pending.remove(i);
+                                    self.steps.push(Step::Disconnect { client: c, side: 0 });
+                                    self.steps.push(Step::ClientFrame { client: c, dt_ms: 16 });
+                                }
+                            }
+                        }
+                    }
+                }
+            }
+            if server_frames == 0 {
+                self.steps.push(Step::ServerFrame { tick: false, dt_ms: 16 });
+            }
+            for c in pending {
+                self.steps.push(Step::Disconnect { client: c, side: 0 });
+                self.steps.push(Step::ClientFrame { client: c, dt_ms: 16 });
+            }
+            if self.r.chance(40) {
+                self.server_op();
+                self.steps.push(Step::ServerFrame { tick: false, dt_ms: 16 });
+            }
+            self.steps.push(Step::ServerStart);
+            for c in 0..nclients {
+                if self.r.chance(80) {
+                    self.connect(c);
+                }
+            }
+        }
+    }
+
     fn struct_op(&mut self, slot: u8) {
         self.last_slot = slot;
         self.last_struct = true;
@@ -598,60 +691,7 @@ impl Gen {
                 self.steps.push(Step::Inject { client, channel: 0, bytes });
             }
             // life-cycle
-            if self.en_conn && self.r.chance(12) {
-                let c = self.r.below(nclients as usize) as u8;
-                if self.connected[c as usize] {
-                    let side = self.r.weighted(&[5, 3, 3]) as u8;
-                    self.steps.push(Step::Disconnect { client: c, side });
-                    if side != 0 && self.r.chance(70) {
-                        // the other end notices a bit later
-                        if self.r.chance(50) {
-                            self.steps.push(Step::ServerFrame { tick: self.r.chance(50), dt_ms: 16 });
-                        }
-                        if self.r.chance(50) {
-                            self.steps.push(Step::ClientFrame { client: c, dt_ms: 16 });
-                        }
-                        self.steps.push(Step::Disconnect { client: c, side: 0 });
-                    } else if side != 0 {
-                        self.steps.push(Step::Disconnect { client: c, side: 0 });
-                    }
-                    self.connected[c as usize] = false;
-                    // at least one frame before reconnecting
-                    self.steps.push(Step::ClientFrame { client: c, dt_ms: 16 });
-                    if self.r.chance(60) {
-                        self.steps.push(Step::ServerFrame { tick: self.r.chance(50), dt_ms: 16 });
-                    }
-                    if self.r.chance(75) {
-                        self.connect(c);
-                    }
-                } else {
-                    self.connect(c);
-                }
-            }
-            if self.en_restart && self.r.chance(6) {
-                self.steps.push(Step::ServerStop);
-                for c in 0..nclients {
-                    self.connected[c as usize] = false;
-                }
-                if self.r.chance(50) {
-                    self.server_op();
-                }
-                self.steps.push(Step::ServerFrame { tick: false, dt_ms: 16 });
-                for c in 0..nclients {
-                    self.steps.push(Step::Disconnect { client: c, side: 0 });
-                    self.steps.push(Step::ClientFrame { client: c, dt_ms: 16 });
-                }
-                if self.r.chance(40) {
-                    self.server_op();
-                    self.steps.push(Step::ServerFrame { tick: false, dt_ms: 16 });
-                }
-                self.steps.push(Step::ServerStart);
-                for c in 0..nclients {
-                    if self.r.chance(80) {
-                        self.connect(c);
-                    }
-                }
-            }
+            self.lifecycle(12, 6);
             if self.prof.app.auth == 2 && self.r.chance(15) {
                 let c = self.r.below(nclients as usize) as u8;
                 self.steps.push(Step::Authorize { client: c });
@@ -661,8 +701,13 @@ impl Gen {
             let dt = self.dt();
             self.steps.push(Step::ServerFrame { tick, dt_ms: dt });
             // network + client frames
+            // Crash points are not only at iteration boundaries: right after the server frame (fresh
+            // messages queued), after the downlink deliveries (messages handed over but not processed)
+            // and after the client frame (acks and events on their way).
+            self.lifecycle(4, 2);
             for c in 0..nclients {
                 self.network(c);
+                self.lifecycle(3, 1);
                 let stall = self.faults && self.r.chance(25);
                 if !stall {
                     let dt = self.dt();
@@ -672,6 +717,7 @@ impl Gen {
                     let slot = self.r.below(self.prof.slots as usize) as u8;
                     self.steps.push(Step::ClientMark { client: c, slot });
                 }
+                self.lifecycle(3, 1);
                 self.uplink(c);
             }
         }
